@@ -1404,19 +1404,21 @@ def apply_monkey_patches() -> Iterator[None]:
     stays pristine once conversion finishes.
     """
     touched: list[tuple[Any, str]] = []
-    for patch_fn, targets, attr in _iter_patch_specs():
-        for tgt in targets:
-            key = (tgt, attr)
-            st = _PATCH_STATE.get(key)
-            if st is None:
-                orig = getattr(tgt, attr)
-                new = patch_fn(orig)
-                setattr(tgt, attr, new)
-                _PATCH_STATE[key] = {"orig": orig, "count": 1}
-            else:
-                st["count"] += 1
-            touched.append(key)
     try:
+        # Apply inside the try block: if a patch cannot be built (missing
+        # attribute, failing patch function) the ones already applied are undone.
+        for patch_fn, targets, attr in _iter_patch_specs():
+            for tgt in targets:
+                key = (tgt, attr)
+                st = _PATCH_STATE.get(key)
+                if st is None:
+                    orig = getattr(tgt, attr)
+                    new = patch_fn(orig)
+                    setattr(tgt, attr, new)
+                    _PATCH_STATE[key] = {"orig": orig, "count": 1}
+                else:
+                    st["count"] += 1
+                touched.append(key)
         yield
     finally:
         for key in reversed(touched):
